@@ -161,6 +161,7 @@ type Sim struct {
 	// IODen: switch away from a task at an IOPoint with probability 1/IODen (0 = IOPoints off)
 	IODen      int
 	IOSwitches int
+	rngN       uint64 // random sources created so far
 	ioLast     *Task
 	Exhausted  bool
 	logH       uint64
@@ -177,6 +178,7 @@ var S *Sim
 const spinLimit = 4000
 
 func New(ch *Choices) *Sim {
+	RaceBarrier()
 	s := &Sim{
 		Ch:        ch,
 		back:      make(chan struct{}),
@@ -397,6 +399,7 @@ func (t *Task) exitTask() {
 	t.state = stDead
 	t.exited = true
 	t.progress = true
+	raceReleaseToBarrier()
 	raceDisable()
 	s.back <- struct{}{}
 	raceEnable()
@@ -407,6 +410,7 @@ func (t *Task) exitTask() {
 //go:norace
 func (t *Task) yield() {
 	s := S
+	raceReleaseToBarrier()
 	raceDisable()
 	s.back <- struct{}{}
 	<-t.wake
@@ -806,6 +810,7 @@ func (s *Sim) RunUntil(pred func() bool, deadline int64) bool {
 		if s.step() {
 			if s.StepCost > 0 {
 				s.now += s.StepCost
+				s.instantSteps = 0 // time passes with every step: nothing can spin within one instant
 				// events that fall due while tasks are running fire now
 				for {
 					ev := s.events.peek()
